@@ -28,7 +28,7 @@ ASSUMPTIONS = ["ref/rpmvercmp.c is a faithful transcription of upstream rpmvercm
 SIGMA = ["0", "1", "9", "a", "B", ".", "é", "~", "^"]
 BOUNDS = {"quick": {"max_len": 3, "evr_versions": 12, "list_len": 3},
           "thorough": {"max_len": 4, "plus_len5_over": "0 1 a . ~ ^", "evr_versions": 43, "list_len": 3}}
-CAP_S = {"quick": 120, "thorough": 1200}
+CAP_S = {"quick": 300, "thorough": 2400}
 
 HERE = os.path.dirname(os.path.dirname(os.path.abspath(__file__)))
 _LIB = None
